@@ -52,6 +52,12 @@ Theorem C03_rank_validator : forall vs,
 Proof. exact validate_rank_iff. Qed.
 Print Assumptions C03_rank_validator.
 
+(* ... and every ranking the library's ranker produces passes it (so evaluate() never trips on its own output) *)
+Theorem C03_produced_rankings_are_well_formed : forall rev xs,
+  validate_rank (map Z.of_nat (rank_values rev xs)) = true.
+Proof. exact rank_values_validate. Qed.
+Print Assumptions C03_produced_rankings_are_well_formed.
+
 (* kernel = exactly the alternatives that no other alternative outranks *)
 Theorem C03_kernel_is_not_outranked : forall n outrank j,
   (j < n)%nat ->
